@@ -61,9 +61,11 @@ type vLRes struct {
 	Repeat        bool   `json:"repeat"`        // the same call had already returned ok before
 	NodeOps       int    `json:"nodeOps"`       // membership steps on the node during the call
 	Stage         string `json:"stage"`
-	SelfAfter     string `json:"selfAfter"` // the node's own record right after the call returned
-	PeerAlive     bool   `json:"peerAlive"` // the node listed a live peer when the call started
-	Leaving       bool   `json:"leaving"`   // the leave flag was set when the call returned
+	SelfAfter     string `json:"selfAfter"`  // the node's own record right after the call returned
+	PeerAlive     bool   `json:"peerAlive"`  // the node listed a live peer when the call started
+	Leaving       bool   `json:"leaving"`    // the leave flag was set when the call returned
+	PeerListed    bool   `json:"peerListed"` // when the call started the node listed another member as alive or suspect (looked up by the harness, not by the node's own anyAlive)
+	SentBefore    bool   `json:"sentBefore"` // the node's own departure had been handed out for packing into a packet when the call returned
 }
 
 type vLLine struct {
@@ -99,6 +101,7 @@ type vLife struct {
 	okBefore       map[string]bool
 	bound          time.Duration
 	parkedFor      time.Duration
+	departPacked   int // times the node's own departure was handed out by getBroadcasts
 }
 
 func vLifeConf(name string, tr *vSimTransport, d Delegate) *Config {
@@ -196,6 +199,14 @@ func (v *vLife) run(what string, role string, item vLItem) vLRes {
 	v.mu.Unlock()
 	start := time.Now()
 	peerAlive := v.N.anyAlive()
+	peerListed := false
+	v.N.nodeLock.RLock()
+	for _, n := range v.N.nodes {
+		if n.Name != "node" && (n.State == StateAlive || n.State == StateSuspect) {
+			peerListed = true
+		}
+	}
+	v.N.nodeLock.RUnlock()
 	done := make(chan vLRes, 1)
 	go func() { done <- v.call(what, timeout) }()
 	var res vLRes
@@ -216,6 +227,10 @@ func (v *vLife) run(what string, role string, item vLItem) vLRes {
 	}
 	res.Role, res.TookMs = role, time.Since(start).Milliseconds()
 	res.PeerAlive = peerAlive
+	res.PeerListed = peerListed
+	v.mu.Lock()
+	res.SentBefore = v.departPacked > 0
+	v.mu.Unlock()
 	res.Leaving = v.N.hasLeft()
 	res.SelfAfter = "absent"
 	v.N.nodeLock.RLock()
@@ -250,6 +265,20 @@ func (v *vLife) background(what string) vLRes {
 		default:
 		}
 		time.Sleep(30 * time.Millisecond)
+	case "SuspectPeer":
+		// a third party's suspicion about the (healthy) peer reaches the node: until the peer's refutation arrives
+		// (a gossip round trip) the node lists its only peer as suspect; the next step starts inside that window
+		var inc uint32
+		v.N.nodeLock.RLock()
+		if st, ok := v.N.nodeMap["peer"]; ok {
+			inc = st.Incarnation
+		}
+		v.N.nodeLock.RUnlock()
+		b, _ := encode(suspectMsg, &suspect{Incarnation: inc, Node: "peer", From: "quux"}, false)
+		select {
+		case v.trN.packetCh <- &Packet{Buf: b.Bytes(), From: &net.UDPAddr{IP: net.IPv4(10, 0, 0, 2), Port: 7946}, Timestamp: time.Now()}:
+		default:
+		}
 	case "PeerCrash":
 		v.nw.crash("peer")
 		_ = v.P.Shutdown()
@@ -265,7 +294,7 @@ func (v *vLife) background(what string) vLRes {
 }
 
 func (v *vLife) step(what string, role string, item vLItem) vLRes {
-	if what == "Accuse" || what == "PeerCrash" || what == "Reap" || what == "Degrade" {
+	if what == "Accuse" || what == "PeerCrash" || what == "Reap" || what == "Degrade" || what == "SuspectPeer" {
 		r := v.background(what)
 		r.Role, r.Stage = role, item.Stage
 		return r
@@ -300,6 +329,17 @@ func vRunLife(t *testing.T, id int, sc vLSched) (l vLLine) {
 			case "alive.end", "suspect.end", "dead.end":
 				if c != nil {
 					c.nodeOps++
+				}
+			case "packed":
+				if bufs, ok := kv[2].([][]byte); ok {
+					for _, b := range bufs {
+						if len(b) > 1 && messageType(b[0]) == deadMsg {
+							var d dead
+							if decode(b[1:], &d) == nil && d.Node == "node" && d.From == "node" {
+								v.departPacked++
+							}
+						}
+					}
 				}
 			case "go.begin":
 				v.goBegin++
